@@ -3,9 +3,43 @@ from . import core, shared, managers
 USES = ["shared"]
 
 
+from pyvc.contract import Contract
+from .core import CF, MACROS
+RS = "csvpath/managers/results/result_serializer.py"
+
+
+def serializer_contracts():
+    cs = []
+    idir = "path_join(run_dir, identity)"
+    cs.append(Contract(
+        target=f"{RS}::ResultSerializer.get_instance_dir", types={"run_dir": "str", "identity": "str"},
+        ensures={"the_members_own_directory_under_the_run_directory": "result == path_join(run_dir, identity)"},
+        class_fields=CF, macros=MACROS, returns="str", native={"skip": True},
+        property_clauses={"the_members_own_directory_under_the_run_directory": "C09,C10"}))
+    cs.append(Contract(
+        target=f"{RS}::ResultSerializer._save", variant="json_files",
+        types={"metadata": "dict[str,val]", "runtime_data": "dict[str,val]", "errors": "list[val]", "variables": "dict[str,val]", "lines": "none", "printouts": "none",
+               "paths_name": "str", "file_name": "str", "identity": "str", "run_time": "val", "run_dir": "str", "run_index": "int", "unmatched": "none"},
+        ensures={"exactly_the_three_json_files": "effects_count('json.dump') == 3",
+                 "meta_json_in_the_members_directory": "effect_path('json.dump', 0) == path_join(%s, 'meta.json')" % idir,
+                 "meta_json_says_which_run_this_was": "effect_payload('json.dump', 0)['paths_name'] == paths_name and effect_payload('json.dump', 0)['file_name'] == file_name and "
+                                                      "effect_payload('json.dump', 0)['identity'] == identity and effect_payload('json.dump', 0)['run_index'] == run_index and "
+                                                      "effect_payload('json.dump', 0)['run_time'] == str_of(run_time)",
+                 "meta_json_carries_the_metadata_and_runtime_data": "same(effect_payload('json.dump', 0)['metadata'], metadata) and same(effect_payload('json.dump', 0)['runtime_data'], runtime_data)",
+                 "errors_json_is_the_error_list": "effect_path('json.dump', 1) == path_join(%s, 'errors.json') and effect_payload('json.dump', 1) == errors" % idir,
+                 "vars_json_is_the_variables": "effect_path('json.dump', 2) == path_join(%s, 'vars.json') and same(effect_payload('json.dump', 2), variables)" % idir},
+        inline=["ResultSerializer._has_printouts"],
+        class_fields=CF, macros=MACROS, returns="none", native={"skip": True},
+        property_clauses={k: "C09" for k in ("exactly_the_three_json_files", "meta_json_in_the_members_directory", "meta_json_says_which_run_this_was",
+                                             "meta_json_carries_the_metadata_and_runtime_data", "errors_json_is_the_error_list", "vars_json_is_the_variables")},
+        doc={"vars_json_is_the_variables": "C09: 'vars.json holds the variables the run ended with'", "errors_json_is_the_error_list": "C09: 'errors.json holds the errors collected'"},
+        assumptions=["json.dump(obj, f) writes obj to the file opened at that path (ghost effect log); the json text itself is external (bounded read-back in C09.bounded)"]))
+    return cs
+
+
 def contracts():
     return core.select(managers.contracts(), ("ResultsRegistrar.all_valid", "ResultsRegistrar.all_completed", "ResultsRegistrar.error_count",
-                                              "ResultsRegistrar.register_complete"))
+                                              "ResultsRegistrar.register_complete")) + serializer_contracts()
 
 
 def bounded(tier, seed):
@@ -17,5 +51,6 @@ def bounded(tier, seed):
 LEVEL = "other"
 EXPLANATION = ("Proved: the run manifest's all_valid / all_completed / error_count / status written by ResultsRegistrar.register_complete are the "
                "conjunction / conjunction / sum over the members (unbounded loops). Bounded (not proved): every archived file of 48 real runs is "
-               "read back and compared with the in-memory results and with its fingerprint. The serializer's file writes are not yet under contract.")
-ASSUMPTIONS = ["json/csv round trip and hashlib are external", "ResultSerializer._save and ResultRegistrar.register_complete are covered only by the bounded runs"]
+               "read back and compared with the in-memory results and with its fingerprint. Proved too: ResultSerializer._save writes meta.json / errors.json / vars.json into the "
+               "member's own directory with exactly the given identity, metadata, errors and variables (ghost effect log of json.dump); the csv and printout files are bounded only.")
+ASSUMPTIONS = ["json/csv round trip and hashlib are external", "ResultRegistrar.register_complete (member manifest) and the data/unmatched/printouts files of _save are covered only by the bounded runs"]
